@@ -297,6 +297,7 @@ def run(ctx):
     check_writers(ctx, 1)
     check_delta(ctx, 2)
     pool.ob_moves_classified(ctx, 3)
+    pool.ob_deltas(ctx, 3)        # admission trusts the free counters: they change only with a container move, by that container's own allocation (C03#2)
     check_invariant(ctx, 3)
     check_setter_for_active_only(ctx, 3)
     check_kills(ctx)
